@@ -17,7 +17,8 @@ structure Owner where
 structure LEntry where
   name : Bytes
   kind : Nat
-  /-- identity of the (never re-encoded) data chunks: header options + payload digest -/
+  /-- the stored form and the content: three bytes (codec, cipher, cipher mode of the entry header, as
+      ASCII digits) followed by a digest of the content -/
   data : Bytes
   rawSize : Option Nat := none
   mode : Option Nat := none
@@ -44,9 +45,19 @@ abbrev Archive := List Item
 /-- what the library returns from `entries_with_password` -/
 def entriesOf (a : Archive) : List LEntry := a.flatMap Item.entries
 
+/-- An entry of a block with header `h` (major, minor, codec, cipher, mode) written on its own
+    (`TransformStrategyUnSolid`, after the `fix:`): the entries of an *encrypted* block are stored in
+    the clear inside its stream, so a file entry takes over the block's codec, cipher and mode; its
+    content (the rest of `data`) and everything else stay.  Links and directories are stored in
+    the clear by every writer of the library and are written as they are. -/
+def standalone (h : Bytes) (e : LEntry) : LEntry :=
+  if h.getD 3 0 != 0 && e.kind == 0 then { e with data := [h.getD 2 0 + 48, h.getD 3 0 + 48, h.getD 4 0 + 48] ++ e.data.drop 3 } else e
+
 /-- `--unsolid`: every surviving entry becomes a top-level normal entry. -/
 def transformUnsolid (f : LEntry → Option LEntry) (a : Archive) : Archive :=
-  (entriesOf a).filterMap f |>.map Item.normal
+  a.flatMap fun
+    | .normal e => ((f e).map Item.normal).toList
+    | .solid h _ es => (es.filterMap f).map fun e => Item.normal (standalone h e)
 
 /-- `--keep-solid`: blocks are rebuilt with the same header options and (after the `fix:`)
     the same unknown chunks; an emptied block is still written. -/
